@@ -516,7 +516,9 @@ impl<const N: usize> Exec<N> {
         if obs.keys != m.keys() {
             return fail(
                 "merge.vertex-set",
-                clauses::C11,
+                // an alive set that differs from the model right after the merge is the same event as
+                // one that differs in the continuation: owned jointly with the exactness properties
+                &["C11", "C02", "C06"],
                 format!(
                     "after merge keys()={:?}; g before plus one vertex per missing path is {:?}",
                     obs.keys,
